@@ -60,6 +60,17 @@ theorem slot_kinds_wellformed :
 
 theorem behaviours_match_spec : Model.behaviours = Spec.behaviours := rfl
 
+/-- [[Call]] and [[Construct]] of every constructor create the object ES5 prescribes, by every route -/
+theorem routes_match_spec : Model.routes = Spec.routes := rfl
+
+set_option maxRecDepth 1000000 in
+/-- non-vacuity and shape of the route table: 15 constructors × 9 routes; a NativeError creates the same object by every route -/
+theorem routes_table :
+    Spec.routes.length = 135 ∧
+    (∀ r ∈ Spec.routeNames, Spec.assoc ("ReferenceError_" ++ r) Spec.routes = some "ReferenceError.prototype:Error:ReferenceError:ReferenceError:m") ∧
+    Spec.assoc "String_call" Spec.routes = some "prim:string" ∧ Spec.assoc "String_new" Spec.routes = some "String.prototype:String:String:-" := by
+  decide +kernel
+
 example : Model.aspect .RegExpPrototype "retest" = some "throws:TypeError" ∧ Spec.aspect .RegExpPrototype "retest" = some "true" := by decide
 example : Spec.aspect .ArrayPrototype "idxlen" = some "6" ∧ Spec.aspect .ObjectPrototype "idxlen" = some "same" := by decide
 
